@@ -4,10 +4,13 @@
 # quick check of each property, and restores /repo.  Refuses to run on a dirty tree
 # (git checkout would destroy uncommitted contract edits).
 set -u
+# evidence files describe the UNCHANGED tree: keep them out of mutant runs
+rm -rf /verif/out/evidence.keep; cp -r /verif/evidence /verif/out/evidence.keep
+restore_evidence() { rm -rf /verif/evidence; cp -r /verif/out/evidence.keep /verif/evidence; }
 id=$1; shift
 if [ -n "$(git -C /repo status --porcelain)" ]; then echo "REFUSING: /repo has uncommitted changes; commit them first" >&2; exit 3; fi
 git -C /repo apply /verif/seeded/$id/patch.diff || exit 3
-trap 'git -C /repo checkout -- . ; git -C /repo clean -fdq' EXIT
+trap 'git -C /repo checkout -- . ; git -C /repo clean -fdq; restore_evidence' EXIT
 for p in "$@"; do
   out=$(/verif/bin/govc check -property $p 2>&1); rc=$?
   echo "== mutant $id vs $p: exit $rc"
